@@ -112,6 +112,8 @@ def build_cell(cs):
         for text in cs[1]:
             t.add_row(Text(text))
         return t
+    if kind == "m":
+        return cs[1]            # a str with console markup: several differently styled segments on one line
     if kind == "st":
         return Text(cs[1], style=cs[2])          # a text with its own style (and a styled span)
     if kind == "ctl":
@@ -167,10 +169,14 @@ def build_table(spec):
         t = Table(**kw)
         for c in early:
             t.add_column(build_cell(c["header"]), build_cell(c["footer"]), **col_kw(c))
+    passed = []
+    n_before = len(t.columns)
     for r in spec["rows"]:
         # "extra" cells beyond the declared columns make add_row create columns (back-filled with Text(""))
-        t.add_row(*[build_cell(cs) for cs in list(r["cells"][: len(early)]) + list(r.get("extra", []))],
-                  end_section=r.get("end_section", False), style=r.get("style"))
+        cells = [build_cell(cs) for cs in list(r["cells"][: len(early)]) + list(r.get("extra", []))]
+        passed.append(cells)
+        t.add_row(*cells, end_section=r.get("end_section", False), style=r.get("style"))
+    t._verif_passed = (n_before, passed)      # what add_row was given, object by object (for the add_row check)
     for c in late:  # a column added after the rows: it has NO cells, so zip(*columns) yields header/footer only
         t.add_column(build_cell(c["header"]), build_cell(c["footer"]), **col_kw(c))
     return t
@@ -344,7 +350,8 @@ def cell_specs(spec, table, ci):
     if ci >= len(spec["cols"]) or spec.get("has_extra"):
         # columns created by add_row (or shifted by them): anonymous cells, never shared between oracles
         nb = len(table.columns[ci]._cells)
-        return ([("anon-h", ci)] if table.show_header else []) + [("anon-b", ci, k) for k in range(nb)] + ([("anon-f", ci)] if table.show_footer else [])
+        sid = hashlib.blake2b(repr((spec["cols"], spec["rows"])).encode(), digest_size=6).hexdigest()   # the CONTENT these cells belong to
+        return ([("anon-h", sid, ci)] if table.show_header else []) + [("anon-b", sid, ci, k) for k in range(nb)] + ([("anon-f", sid, ci)] if table.show_footer else [])
     c = spec["cols"][ci]
     out = []
     if table.show_header:
@@ -372,7 +379,7 @@ def encode_variant(flags, pool, console, table, avail, spec):
         keys = cell_specs(spec, table, ci)
         if len(keys) != len(rs):
             # the table is not shaped as the spec says (add_row_rectangular reports that): anonymous, unshared oracle keys
-            keys = [("anon-x", ci, ri, len(rs)) for ri in range(len(rs))]
+            keys = [("anon-x", repr((spec["cols"], spec["rows"])), ci, ri, len(rs)) for ri in range(len(rs))]
         for ri, r in enumerate(rs):
             pad = (r.top, r.right, r.bottom, r.left) if any(table.padding) else None
             ids.append(pool.cell((repr(keys[ri]), pad), r, table, column, spec.get("env")))
@@ -787,7 +794,7 @@ def spec_text_cells(spec):
         kinds = [c["header"][0], c["footer"][0]]
         if not c.get("late"):
             kinds += [r["cells"][ci][0] for r in spec["rows"] if ci < len(r["cells"])]
-        out.append(all(k in ("s", "t", "st", "ctl", "none") for k in kinds))
+        out.append(all(k in ("s", "t", "st", "ctl", "m", "none") for k in kinds))
     return out
 
 
@@ -898,20 +905,39 @@ class Bundle:
         console = make_console(avail, spec.get("env"))
         table = build_table(spec)
         text, padded, ncols = encode_variant(flags, self.pool, self.console, table, avail, spec)
-        # add_row keeps the table rectangular: every column present when the rows were added (or created by them) holds one cell
-        # per row — a missing cell is "", a surplus cell creates a column back-filled for the earlier rows
+        # add_row: every column present when the rows were added, or created by them, holds one cell per row, and the cell in
+        # row k of column c IS (by identity) the object passed as argument c of the k-th add_row; a missing argument (or None) is
+        # "", and a column created by row k0 holds a blank for every earlier row.  Computed from what was passed, not from the table.
+        n_before, passed = table._verif_passed
         nlate = sum(1 for c in spec["cols"] if c.get("late"))
         cols_now = table.columns[: len(table.columns) - nlate] if nlate else table.columns
-        ok = all(len(c._cells) == len(table.rows) for c in cols_now) and len(table.rows) == len(spec["rows"])
-        if ok and not spec.get("has_extra"):
+        n_expected = max([n_before] + [len(p) for p in passed])
+        ok = len(cols_now) == n_expected and len(table.rows) == len(passed)
+        why = f"{len(cols_now)} columns for rows of {[len(p) for p in passed]} cells on {n_before} declared columns"
+        if ok:
+            ncols_so_far = n_before
+            created_at = {}
+            for k, p in enumerate(passed):
+                for ci in range(ncols_so_far, len(p)):
+                    created_at[ci] = k
+                ncols_so_far = max(ncols_so_far, len(p))
             for ci, c in enumerate(cols_now):
-                for k, r in enumerate(spec["rows"]):
-                    cs = r["cells"][ci] if ci < len(r["cells"]) else ("none",)
-                    if cs[0] == "s":
-                        ok = ok and c._cells[k] == cs[1]
-                    elif cs[0] == "none":
-                        ok = ok and (c._cells[k] == "" or getattr(c._cells[k], "plain", None) == "")
-        ctx.check(ok, "add_row_rectangular", spec, f"columns hold {[len(c._cells) for c in table.columns]} cells for {len(table.rows)} rows")
+                want = []
+                for k, p in enumerate(passed):
+                    if k < created_at.get(ci, 0):
+                        want.append(("blank",))
+                    elif ci < len(p) and p[ci] is not None:
+                        want.append(("obj", p[ci]))
+                    else:
+                        want.append(("blank",))
+                got = list(c._cells)
+                if len(got) != len(want) or not all(
+                        (g is w[1]) if w[0] == "obj" else (g == "" or getattr(g, "plain", None) == "") for g, w in zip(got, want)):
+                    ok = False
+                    why = (f"column {ci} holds {[getattr(g, 'plain', g) for g in got]!r}, the add_row calls passed "
+                           f"{[(getattr(w[1], 'plain', w[1]) if w[0] == 'obj' else '') for w in want]!r} for it")
+                    break
+        ctx.check(ok, "add_row_cells", spec, why)
         ans, widths, lines = real_answer(console, table, incoming_options(console, spec))
         self.variants.append((text, ans, spec))
         ro = spec.get("render_opts") or {}
